@@ -8,6 +8,7 @@ export GOFLAGS=-mod=mod GOPROXY=off GOSUMDB=off GOTOOLCHAIN=local
 VERIF="$(cd "$(dirname "${BASH_SOURCE[0]}")" && pwd)"
 export VERIF_DIR="$VERIF"
 REPO="${VERIF_REPO:-/repo}"
+export VERIF_REPO_DIR="$REPO"
 ID="${1:?property id}"
 MODE="${2:-quick}"
 BUILD="$VERIF/.build"
